@@ -93,6 +93,8 @@ impl Subscriber for SubscriberService {
                 CreateSubscriptionError::Closed => conflict(),
             })?;
 
+        #[cfg(deltio_verif)]
+        crate::verif::point("api.create_subscription.before_get_info").await;
         // Retrieve the info from the create subscription, in case any changes were made.
         let subscription_info = subscription.get_info().await.map_err(|e| match e {
             GetInfoError::Closed => conflict(),
@@ -279,6 +281,8 @@ impl Subscriber for SubscriberService {
         let messages_fut = async {
             loop {
                 let signal = subscription.messages_available();
+                #[cfg(deltio_verif)]
+                crate::verif::point("api.pull.after_signal").await;
                 let received_messages =
                     pull_messages(&subscription, request.max_messages as u16).await?;
                 // If we got messages, return them.
@@ -300,6 +304,10 @@ impl Subscriber for SubscriberService {
                 }
 
                 // Otherwise, wait for messages to be available.
+                #[cfg(deltio_verif)]
+                crate::verif::point("api.pull.before_wait").await;
+                #[cfg(deltio_verif)]
+                crate::verif::probe("pull_parked");
                 signal.await;
             }
         };
@@ -355,6 +363,8 @@ impl Subscriber for SubscriberService {
 
                     // Subscribe to the deletion signal.
                     let deleted = subscription.deleted();
+                    #[cfg(deltio_verif)]
+                    crate::verif::point("api.spull.after_signal").await;
 
                     // Then, pull the available messages from the subscription.
                     let pulled = match subscription.pull_messages(max_count).await {
@@ -385,6 +395,8 @@ impl Subscriber for SubscriberService {
 
                     // Wait for the next signal and do it all over again.
                     // If the subscription is deleted while we wait, return a not found.
+                    #[cfg(deltio_verif)]
+                    crate::verif::point("api.spull.before_wait").await;
                     was_deleted = tokio::select! {
                         _ = signal => false,
                         _ = deleted => true
@@ -554,6 +566,8 @@ async fn handle_streaming_pull_request(
         );
     }
 
+    #[cfg(deltio_verif)]
+    crate::verif::point("api.spull_request.between_ack_and_modify").await;
     // Extend deadlines if requested to do so.
     if !request.modify_deadline_ack_ids.is_empty() {
         let start = ActivitySpan::start();
